@@ -54,6 +54,8 @@ pub enum Stmt {
     Fail { out: Option<String>, kind: FailKind, id: u32 },
     /// C10: exit_on_error true/false
     ExitOnError(bool),
+    /// C10: `set_error msg` - replaces the stored last error without triggering the error flow
+    SetError(String),
 }
 
 #[derive(Clone, Debug, PartialEq, Eq, Hash)]
@@ -292,6 +294,8 @@ impl<'a, 'b> G<'a, 'b> {
                 let id = self.next_emit;
                 if self.t.chance(1, 8) {
                     Stmt::ExitOnError(self.t.chance(1, 3))
+                } else if self.t.chance(1, 4) {
+                    Stmt::SetError(self.t.pick(&["noted", "manual error text", "x"]).to_string())
                 } else {
                     let out = if self.t.flip() { Some(self.t.pick(&["e", "v"]).to_string()) } else { None };
                     let kind = if self.t.flip() {
@@ -621,6 +625,10 @@ impl<'a, 'b> Renderer<'a, 'b> {
                         let l = format!("emit {} probe ${{pe}} ${{pl}} ${{ps}} {}", id, ov);
                         self.line(depth, &l);
                     }
+                }
+                Stmt::SetError(m) => {
+                    let l = format!("set_error {}", render_expr(&Expr::Lit(m.clone())));
+                    self.line(depth, &l);
                 }
                 Stmt::ExitOnError(b) => {
                     // the state is the truthiness of the argument (one rule, C06): any spelling of it
@@ -1141,6 +1149,13 @@ impl<'p> Model<'p> {
                 }
                 Stmt::ExitOnError(b) => {
                     self.exit_on_error = *b;
+                }
+                Stmt::SetError(_) => {
+                    // replaces the stored last error only (every probe follows a real error, which replaces it again);
+                    // in particular it leaves the exit_on_error mode as it is
+                    if self.exit_on_error {
+                        self.classes.insert("set_error-while-exit_on_error-is-on");
+                    }
                 }
             }
         }
